@@ -55,6 +55,9 @@ pub struct Sc {
     pub now_rel_ctime: Option<(usize, i64)>,
     /// applied in order after the tree exists
     pub placements: Vec<Placement>,
+    /// a second time test in the same expression (conjunction), on the settable timestamps only
+    #[serde(default)]
+    pub second: Option<Test>,
 }
 
 /// Set `which` ('a' or 'm') of `file` (None = the reference file) to the real
@@ -221,6 +224,19 @@ impl Property for C15 {
                 }
             }
         }
+        // a second test naming the same reference file (or another age test): both must be
+        // evaluated on their own timestamps
+        let second = if rng.chance(1, 5) {
+            let am = |rng: &mut Rng| *rng.pick(&['a', 'm']);
+            Some(match rng.weighted(&[5, 1, 1, 2]) {
+                0 => Test::NewerXY { x: am(rng), y: am(rng) },
+                1 => Test::Newer,
+                2 => Test::ShortNewer { x: 'a' },
+                _ => Test::Age { which: am(rng), minutes: rng.chance(1, 2), cmp: *rng.pick(&['+', '-']), n: rng.irange(0, 400) as u64 },
+            })
+        } else {
+            None
+        };
         Sc {
             files,
             ref_times,
@@ -228,6 +244,7 @@ impl Property for C15 {
             now_ns: base_now,
             now_rel_ctime,
             placements,
+            second,
         }
     }
 
@@ -239,6 +256,25 @@ impl Property for C15 {
     }
 
     fn check(sc: &Sc, ctx: &mut Ctx, rep: &mut Report) {
+        // "now" of the real executable is fixed when find starts: the clock of
+        // StandardDependencies is read at construction, not at first use, and never again
+        {
+            use findutils::find::Dependencies;
+            use std::time::SystemTime;
+            let before = SystemTime::now();
+            let deps = findutils::find::StandardDependencies::new();
+            let after = SystemTime::now();
+            while SystemTime::now() <= after {}
+            let n1 = deps.now();
+            let n2 = deps.now();
+            if n1 < before || n1 > after || n1 != n2 {
+                rep.fail(
+                    "C15.now-not-fixed-at-start",
+                    format!("StandardDependencies::new() ran between {before:?} and {after:?} but now() answers {n1:?}, then {n2:?}"),
+                );
+                return;
+            }
+        }
         let mut spec = TreeSpec::default();
         spec.nodes.push(Node::Dir { path: "d".into() });
         for (i, (a, m)) in sc.files.iter().enumerate() {
@@ -359,7 +395,35 @@ impl Property for C15 {
                     rep.probe(if rt { "rt_timestamps_one_nanosecond_apart" } else { "timestamps_one_nanosecond_apart" });
                 }
             }
+            // conjunction with the second test, evaluated the same way
+            let e2 = sc.second.as_ref().map(|t2| match t2 {
+                Test::Age { which, minutes, cmp, n } => {
+                    let age = now - pickt(t, *which);
+                    if age < 0 {
+                        None
+                    } else {
+                        let period = if *minutes { 60 } else { DAY } as i128 * NS as i128;
+                        let periods = (age / period) as u64;
+                        Some(match cmp {
+                            '+' => periods > *n,
+                            '-' => periods < *n,
+                            _ => periods == *n,
+                        })
+                    }
+                }
+                Test::Newer => Some(t.2 > reft.2),
+                Test::ShortNewer { x } => Some(pickt(t, *x) > reft.2),
+                Test::NewerXY { x, y } => Some(pickt(t, *x) > pickt(&reft, *y)),
+            });
+            let e = match (e, e2) {
+                (e, None) => e,
+                (Some(a), Some(Some(b))) => Some(a && b),
+                _ => None,
+            };
             expected.push(e);
+        }
+        if sc.second.is_some() {
+            rep.probe("two_time_tests_in_one_expression");
         }
         match &sc.test {
             Test::Age { which: 'c', .. } => rep.probe("ctime_test_clock_relative_to_real_ctime"),
@@ -398,6 +462,9 @@ impl Property for C15 {
         }
         let mut argv = vec!["d".to_string(), "-type".into(), "f".into()];
         argv.extend(sc.test.args());
+        if let Some(t2) = &sc.second {
+            argv.extend(t2.args());
+        }
         argv.push("-print0".into());
         let mut find = FindScenario::new(TreeSpec::default(), argv.clone());
         find.now_ns = Some(now as i64);
@@ -423,6 +490,7 @@ impl Property for C15 {
             let got = printed.contains(&format!("d/f{i}"));
             if got != *e {
                 let class = match &sc.test {
+                    _ if sc.second.is_some() => "C15.two-time-tests",
                     Test::Age { minutes: false, .. } => "C15.time-periods",
                     Test::Age { minutes: true, .. } => "C15.min-periods",
                     Test::Newer => "C15.newer",
@@ -455,6 +523,11 @@ impl Property for C15 {
 
     fn shrink(sc: &Sc) -> Vec<Sc> {
         let mut out = vec![];
+        if sc.second.is_some() {
+            let mut s = sc.clone();
+            s.second = None;
+            out.push(s);
+        }
         if sc.files.len() > 1 {
             for i in 0..sc.files.len() {
                 let used = sc.now_rel_ctime.map(|x| x.0) == Some(i)
